@@ -689,6 +689,16 @@ class World:
     def contract_for(self, fn):
         return self.contracts.get((fn.module.name, fn.qualname))
 
+    def callee_contract(self, target, result=None, requires=(), ensures=()):
+        """Register the contract a call site sees for repository function
+        `target` (modular verification: callers never look at its body)."""
+        from .verify import Contract
+        c = Contract(target, requires=requires, ensures=ensures,
+                     result=result or TVal)
+        c.resolve(self)
+        self.contracts[(c.module.name, c.qualname)] = c
+        return c
+
     def spec_helpers(self, it):
         from . import models
         return models.spec_helpers(self, it)
@@ -725,7 +735,8 @@ class World:
                 self.spec_eval(it, e, fr))))
         if c.may_raise:
             raise Unsupported('callee contract with exceptions')
-        self.inlined.discard(c.short)
+        it.calls.append(('contract:' + c.short, tuple(
+            fr.vars.get(p) for p in c.param_order(fn)), res))
         return res
 
     # ------------------------------------------------ generators ----
